@@ -30,6 +30,7 @@ import re
 import shutil
 import tempfile
 import urllib.parse
+import urllib.request
 
 import ZConfig
 import ZConfig.loader
@@ -264,7 +265,136 @@ def _redefine(rng, uni, res, conflict):
     return res
 
 
+# ---------------------------------------------------------------------------
+# stratum: the including resource lives in a Python package (package: URL)
+
+PKG_NAME = "zcsim_pr"
+PKG_ROOT_URL = "file:///sim/pk/"
+
+
+def _pkg_url(u):
+    return "package:%s:%s" % (PKG_NAME, u[len(PKG_ROOT_URL):])
+
+
+def generate_pkg(rng):
+    """The same kind of cut layout, but the top resource and the fragments
+    its relative references name are resources OF A PACKAGE
+    (package:zcsim_pr:conf/top.conf ...).  'Resolved against the URL of the
+    including resource' then means: beside it, in the package."""
+    for _attempt in range(30):
+        ir, lines = G.gen_pair(rng, {"handlers": False},
+                               {"full": rng.choice([0.5, 0.8, 1.0])})
+        uni = layout.cut(rng, lines, top_url=PKG_ROOT_URL + "conf/d/top.conf",
+                         ncuts=rng.choice([1, 2, 3]), decoys=False)
+        res = TF.res_texts(uni)
+        ok = len(res) > 1
+        for u, ls in res.items():
+            for t in ls:
+                m = _INC.match(t)
+                if not m:
+                    continue
+                ref = m.group(1)
+                if u.startswith(PKG_ROOT_URL) and ":" not in ref and (
+                        ref.startswith(("/", "~")) or "%" in ref
+                        or "$" in ref or "?" in ref or "#" in ref):
+                    ok = False
+                tgt = urllib.parse.urljoin(u, ref)
+                if u.startswith(PKG_ROOT_URL) and ":" not in ref \
+                        and not tgt.startswith(PKG_ROOT_URL):
+                    ok = False         # '../' beyond the package root
+                if ":" in ref and tgt.startswith(PKG_ROOT_URL):
+                    ok = False         # package data has no file: URL
+                if not u.startswith(PKG_ROOT_URL) \
+                        and tgt.startswith(PKG_ROOT_URL):
+                    ok = False
+        if not ok:
+            continue
+        if not any(u != uni["top"] and u.startswith(PKG_ROOT_URL)
+                   for u in res):
+            continue
+        variant = rng.choice(["plain", "plain", "invalid"])
+        if variant == "invalid":
+            injs = TF.enumerate_injections(ir, uni)
+            if injs:
+                res = TF.apply(res, rng.choice(injs))
+        return {"prop": ID, "kind": "pkg-includer", "variant": variant,
+                "schema_xml": G.render_schema(ir),
+                "store": {u: TF.join(ls) for u, ls in res.items()},
+                "top": uni["top"]}
+    return None
+
+
+def execute_pkg(plan):
+    out = {"evaluations": 0, "digests": [], "fired": {}, "probes": {},
+           "violations": [], "waste": 0, "log": []}
+    store, top = plan["store"], plan["top"]
+
+    def violation(clause, detail):
+        out["violations"].append({
+            "sig": "C06|%s|pkg-includer" % clause,
+            "key": {"clause": clause, "variant": "pkg-includer"},
+            "detail": detail, "plan": plan})
+
+    expected = [top]
+    inlined = "".join(x + "\n" for x in inline_text(store, top, expected))
+    # the world: what lies under PKG_ROOT_URL is package data, the rest are
+    # ordinary URLs; like-named decoys sit where a reference resolved
+    # against the current directory would look
+    wstore = {}
+    for u, t in store.items():
+        if u.startswith(PKG_ROOT_URL):
+            wstore[pkg_file_key(PKG_NAME, u[len(PKG_ROOT_URL):])] = t
+            rel = u[len(PKG_ROOT_URL):].rsplit("/", 1)[-1]
+            wstore["file://" + urllib.request.pathname2url(
+                os.path.join(os.getcwd(), rel))] = layout.DECOY_TEXT
+        else:
+            wstore[u] = t
+    with SimWorld(packages={PKG_NAME: {"is_package": True}}) as w:
+        w.begin_op("load-schema")
+        so = ops.schema_outcome(
+            lambda: ops.load_schema_text(plan["schema_xml"], SCHEMA_URL))
+        if not so["ok"]:
+            out["waste"] += 1
+            return out
+        schema = so["schema"]
+        w.store = {}
+        w.begin_op("load-inlined")
+        oi = ops.config_outcome(lambda: ZConfig.loadConfigFile(
+            schema, io.StringIO(inlined), top))
+        w.end_op("ok" if oi["ok"] else oi["cls"])
+        w.store = wstore
+        w.begin_op("load-from-package")
+        oc = ops.config_outcome(lambda: ZConfig.loadConfig(
+            schema, _pkg_url(top)))
+        w.end_op("ok" if oc["ok"] else oc["cls"])
+        out["evaluations"] += 2
+        out["probes"]["includer-in-a-package"] = 1
+        if oi["ok"] != oc["ok"]:
+            violation("outcome-differs",
+                      "inlined text %s but the layout in the package %s"
+                      % (ops.brief(oi), ops.brief(oc)))
+        elif oi["ok"] and oi["tree"] != oc["tree"]:
+            violation("tree-differs",
+                      "value trees differ: inlined %s / package %s"
+                      % (json.dumps(oi["tree"])[:300],
+                         json.dumps(oc["tree"])[:300]))
+        elif not oi["ok"]:
+            out["fired"]["pkg-includer-rejected"] = 1
+            for o, what in ((oi, "inlined"), (oc, "package")):
+                if not o.get("cfgerr"):
+                    violation("non-config-error",
+                              "%s load raised %s" % (what, ops.brief(o)))
+        out["digests"].append(hashlib.sha256(json.dumps(
+            [plan["schema_xml"], store, "pkg"], sort_keys=True).encode()
+        ).hexdigest()[:16])
+    return out
+
+
 def generate(rng, tier, index):
+    if rng.random() < 0.03:
+        p_ = generate_pkg(rng)
+        if p_ is not None:
+            return p_
     ir, lines = G.gen_pair(rng, {"handlers": False},
                            {"full": rng.choice([0.5, 0.8, 1.0])})
     xml = G.render_schema(ir)
@@ -456,6 +586,8 @@ def _to_real(s, scratch):
 
 
 def execute(plan):
+    if plan.get("kind") == "pkg-includer":
+        return execute_pkg(plan)
     out = {"evaluations": 0, "digests": [], "fired": {}, "probes": {},
            "violations": [], "waste": 0, "log": []}
     if not plan.get("realfs"):
